@@ -397,6 +397,11 @@ func equalModuloManaged(sp *spec.Spec, in, out string) (bool, string) {
 				}
 			}
 			host := strings.HasPrefix(href, "//") || strings.Contains(strings.SplitN(href, "?", 2)[0], "://")
+			if _, perr := url.Parse(href); perr != nil {
+				// not a URL for net/url (only possible with URL checking switched off again): whether such a
+				// value "has a host" is nobody's to say, the fully-qualified options may or may not apply
+				continue
+			}
 			want := map[string]bool{}
 			wantTarget := false
 			if hasHref {
